@@ -315,6 +315,18 @@ pub struct Shader {
     /// order-independent). Variables keep their relative order (`global_order`).
     #[serde(default)]
     pub item_shuffle: u64,
+    /// `alias Name = <type>;` declarations. Where a struct member, module-scope variable or entry
+    /// point parameter has exactly this type, the renderer spells it through the alias for the
+    /// occurrences selected by `uses` (bit k%32 = k-th occurrence in rendering order).
+    #[serde(default)]
+    pub aliases: Vec<AliasDef>,
+}
+
+#[derive(Clone, PartialEq, Debug, Serialize, Deserialize)]
+pub struct AliasDef {
+    pub name: String,
+    pub ty: Ty,
+    pub uses: u32,
 }
 
 /// The 41 storage texel formats of naga 24 in naga's declaration order, with the channel scalar.
